@@ -1,1 +1,324 @@
-/- C01 — property theorems (stub: not built yet). -/
+/-
+C01 — osu!mania file ↔ chart.  Property theorems about the executable model `Reamber/Model/Osu.lean`
+(+ `Model/OsuLex.lean`), stated against `Reamber/Spec/Osu.lean`.  The correspondence check
+(`harness/props/c01.py`) ties the model to reamber/osu/*.py on every run; `Generated/OsuTables.lean` ties the
+constants, defaults, key table and header template to the source.
+
+Parameters, not proved (DESIGN §5 K3): float rendering (`repr`, `:g`) and `unidecode` — the writer emits tokens;
+hit / hold / sample lines contain integers only and are proved down to the characters.
+-/
+import Reamber.Lemmas.OsuLines
+import Reamber.Generated.OsuTables
+
+namespace Reamber.Osu
+
+/-! ## tie to the source -/
+
+/-- the key table the model's `metaAssign` implements: (key, attribute, conversion) -/
+def modelKeyTable : List (String × String × String) :=
+  [("AudioFilename", "audio_file_name", "strip"), ("AudioLeadIn", "audio_lead_in", "int"),
+   ("PreviewTime", "preview_time", "int"), ("Countdown", "countdown", "boolint"),
+   ("SampleSet", "sample_set", "sampleset"), ("StackLeniency", "stack_leniency", "float"), ("Mode", "mode", "int"),
+   ("LetterboxInBreaks", "letterbox_in_breaks", "boolint"), ("SpecialStyle", "special_style", "boolint"),
+   ("WidescreenStoryboard", "widescreen_storyboard", "boolint"), ("DistanceSpacing", "distance_spacing", "float"),
+   ("BeatDivisor", "beat_divisor", "int"), ("GridSize", "grid_size", "int"), ("TimelineZoom", "timeline_zoom", "float"),
+   ("Title", "title", "strip"), ("TitleUnicode", "title_unicode", "strip"), ("Artist", "artist", "strip"),
+   ("ArtistUnicode", "artist_unicode", "strip"), ("Creator", "creator", "strip"), ("Version", "version", "strip"),
+   ("Source", "source", "strip"), ("Tags", "tags", "tags"), ("BeatmapID", "beatmap_id", "int"),
+   ("BeatmapSetID", "beatmap_set_id", "int"), ("HPDrainRate", "hp_drain_rate", "float"),
+   ("CircleSize", "circle_size", "float"), ("OverallDifficulty", "overall_difficulty", "float"),
+   ("ApproachRate", "approach_rate", "float"), ("SliderMultiplier", "slider_multiplier", "float"),
+   ("SliderTickRate", "slider_tick_rate", "float")]
+
+def tokFlag : Tok → String
+  | .g _ => "g" | .uni _ => "uni" | _ => ""
+
+/-- (literal prefix, "g" | "uni" | "", literal suffix) of one header line -/
+def lineShape : TLine → String × String × String
+  | [] => ("", "", "")
+  | [.lit s] => (String.ofList s, "", "")
+  | [.lit s, t] => (String.ofList s, tokFlag t, "")
+  | [.lit s, t, .lit u] => (String.ofList s, tokFlag t, String.ofList u)
+  | _ => ("?", "?", "?")
+
+def d0 : Meta := {}
+
+/-- Tie to the source.  The constants of the column mapping and of value↔code, the dataclass defaults of
+`OsuMapMeta`, the item constructors' defaults, the key table of `_read_meta_string_list` and the line templates
+of `write_meta_string_list` are the ones the translator read from the code.  Re-checked whenever they change. -/
+theorem consts_tie :
+    Generated.Osu.xToColConsts = [512, 1, 0] ∧ Generated.Osu.colToXConsts = [0, 512, 256] ∧
+    Generated.Osu.bpmCodeConsts = [60000, 60000] ∧ Generated.Osu.svCodeConsts = [-100, -100] ∧
+    Generated.Osu.metaNumDefaults =
+      [("hp_drain_rate", d0.hpDrainRate), ("circle_size", d0.circleSize), ("overall_difficulty", d0.overallDifficulty),
+       ("approach_rate", d0.approachRate), ("slider_multiplier", d0.sliderMultiplier),
+       ("slider_tick_rate", d0.sliderTickRate), ("beatmap_id", (d0.beatmapId : Rat)),
+       ("beatmap_set_id", (d0.beatmapSetId : Rat)), ("distance_spacing", d0.distanceSpacing),
+       ("beat_divisor", d0.beatDivisor), ("grid_size", d0.gridSize), ("timeline_zoom", d0.timelineZoom),
+       ("audio_lead_in", d0.audioLeadIn), ("preview_time", d0.previewTime), ("sample_set", (d0.sampleSet : Rat)),
+       ("stack_leniency", d0.stackLeniency), ("mode", (d0.mode : Rat))] ∧
+    Generated.Osu.metaBoolDefaults =
+      [("countdown", d0.countdown), ("letterbox_in_breaks", d0.letterboxInBreaks), ("special_style", d0.specialStyle),
+       ("widescreen_storyboard", d0.widescreenStoryboard)] ∧
+    Generated.Osu.metaStrDefaults.map (fun p => p.2.toList) = List.replicate 10 [] ∧
+    Generated.Osu.itemDefaults =
+      [("OsuHit.hitsound_set", 0), ("OsuHit.sample_set", 0), ("OsuHit.addition_set", 0), ("OsuHit.custom_set", 0),
+       ("OsuHit.volume", 0), ("OsuHold.hitsound_set", 0), ("OsuHold.sample_set", 0), ("OsuHold.addition_set", 0),
+       ("OsuHold.custom_set", 0), ("OsuHold.volume", 0), ("OsuBpm.metronome", 4), ("OsuBpm.sample_set", 0),
+       ("OsuBpm.sample_set_index", 0), ("OsuBpm.volume", 50), ("OsuBpm.kiai", 0), ("OsuSv.multiplier", 1),
+       ("OsuSv.metronome", 4), ("OsuSv.sample_set", 0), ("OsuSv.sample_set_index", 0), ("OsuSv.volume", 50),
+       ("OsuSv.kiai", 0), ("OsuSample.volume", 70)] ∧
+    Generated.Osu.metaKeyTable = modelKeyTable ∧
+    (writeMeta d0).map lineShape ++ [("*", "*", "")] = Generated.Osu.metaWriteShape := by
+  decide +kernel
+
+/-- keys outside the table leave the metadata untouched -/
+theorem metaAssign_other (m : Meta) (k : Str) (v : MVal)
+    (hk : ∀ e ∈ modelKeyTable, k ≠ e.1.toList) : metaAssign m k v = .ok m := by
+  simp only [modelKeyTable, List.mem_cons, List.not_mem_nil, or_false, forall_eq_or_imp, forall_eq] at hk
+  unfold metaAssign
+  simp only [hk, if_false]
+
+/-! ## column ↔ x (every key count) -/
+
+/-- **x → column is the format's column, for every key count and every x of the playfield** (1 ≤ K, 0 ≤ x < 512):
+`512·col ≤ x·K < 512·(col+1)`; and it is the only such column. -/
+theorem xToCol_range (x k : Int) (hk : 1 ≤ k) (hx0 : 0 ≤ x) (hx : x < 512) :
+    512 * xToCol x k ≤ x * k ∧ x * k < 512 * (xToCol x k + 1) ∧
+    ∀ c, IsColumn x k c → c = xToCol x k :=
+  have h := xToCol_isColumn x k hk hx0 hx
+  ⟨h.1.1, h.1.2, fun _ hc => isColumn_unique hc h.1⟩
+
+/-- **write then read of a column is the identity**, every key count up to 256 (in particular 1..18) -/
+theorem column_roundtrip (c k : Int) (hk : 0 < k) (hk' : k ≤ 256) (hc0 : 0 ≤ c) (hc : c < k) :
+    xToCol (colToX c k) k = c ∧ IsColumn (colToX c k) k c := ⟨xToCol_colToX c k hk hk' hc0 hc, (colToX_isColumn c k hk hk' hc0 hc).1⟩
+
+example : xToCol (colToX 5 10) 10 = 5 ∧ xToCol 256 10 = 5 := by decide
+
+/-! ## resolution: Python `int()` and no drift -/
+
+/-- **times move by less than 1 ms** when written -/
+theorem qHit_close (h : Hit) : |(qHit h).offset - h.offset| < 1 ∧ (qHit h).column = h.column :=
+  ⟨pyTrunc_abs_lt_one _, rfl⟩
+
+/-- both end points of a hold move by less than 1 ms -/
+theorem qHold_close (h : Hold) :
+    |(qHold h).offset - h.offset| < 1 ∧ |((qHold h).offset + (qHold h).length) - (h.offset + h.length)| < 1 := by
+  refine ⟨pyTrunc_abs_lt_one _, ?_⟩
+  have : (qHold h).offset + (qHold h).length = (pyTrunc (h.offset + h.length) : Rat) := by
+    simp only [qHold]; ring
+  rw [this]; exact pyTrunc_abs_lt_one _
+
+/-- **no drift**: quantizing a quantized note / hold / sample changes nothing, so every later generation equals
+the first written one -/
+theorem qHit_idem (h : Hit) : qHit (qHit h) = qHit h := by
+  simp only [qHit, pyTrunc_intCast]
+
+theorem qHold_idem (h : Hold) : qHold (qHold h) = qHold h := by
+  have e : ((pyTrunc h.offset : Int) : Rat) + (((pyTrunc (h.offset + h.length) : Int) : Rat) - ((pyTrunc h.offset : Int) : Rat))
+      = ((pyTrunc (h.offset + h.length) : Int) : Rat) := by ring
+  simp only [qHold, pyTrunc_intCast, e]
+
+theorem qSample_idem (s : Sample) : qSample (qSample s) = qSample s := by
+  simp only [qSample, pyTrunc_intCast]
+
+theorem qBpm_idem (b : Bpm) : qBpm (qBpm b) = qBpm b := by
+  simp only [qBpm, pyTrunc_intCast]
+
+/-! ## value ↔ code -/
+
+/-- **bpm ↔ beat length and SV ↔ code are involutions** on non-zero values: what is written reads back exactly -/
+theorem code_value (v : Rat) (hv : v ≠ 0) :
+    bpmCode (bpmCode v) = v ∧ svCode (svCode v) = v ∧ bpmCode v ≠ 0 ∧ svCode v ≠ 0 :=
+  ⟨bpmCode_bpmCode v hv, svCode_svCode v hv, bpmCode_ne_zero v hv, svCode_ne_zero v hv⟩
+
+/-! ## the classifier by counting agrees with the type bits -/
+
+/-- **for every line of the dialect (`wfObjLine`), counting `:` and `,` classifies exactly as the type bits do**:
+`is_hit` ⇔ bit 0, `is_hold` ⇔ bit 7, never both -/
+theorem classify_eq_typeBits (line : Str) (h : wfObjLine line = true) :
+    ∃ fx fy ft fty fhs fex ty, splitOn ',' line = [fx, fy, ft, fty, fhs, fex] ∧ readInt fty = .ok ty ∧
+      isHit line = bit ty 0 ∧ isHold line = bit ty 7 ∧ bit ty 0 ≠ bit ty 7 := by
+  unfold wfObjLine at h
+  split at h
+  · next fx fy ft fty fhs fex hs =>
+    simp only [Bool.and_eq_true, decide_eq_true_eq] at h
+    obtain ⟨⟨⟨⟨⟨h0, h1⟩, h2⟩, h3⟩, h4⟩, h5⟩ := h
+    have hcnt := classify_fields line fx fy ft fty fhs fex hs (by simpa using h0) (by simpa using h1)
+      (by simpa using h2) (by simpa using h3) (by simpa using h4)
+    cases hty : readInt fty with
+    | error e => rw [hty] at h5; simp at h5
+    | ok ty =>
+      rw [hty] at h5
+      refine ⟨fx, fy, ft, fty, fhs, fex, ty, hs, hty, ?_⟩
+      simp only [Bool.or_eq_true, Bool.and_eq_true, Bool.not_eq_true', decide_eq_true_eq] at h5
+      unfold isHit isHold
+      rcases h5 with ⟨⟨b0, b7⟩, hl⟩ | ⟨⟨b0, b7⟩, hl⟩
+      · have hc : countC ':' line = 4 := by omega
+        simp [hc, hcnt.1, b0, b7]
+      · have hc : countC ':' line = 5 := by omega
+        simp [hc, hcnt.1, b0, b7]
+  · simp at h
+
+example : wfObjLine "307,0,1000.75,132,0,2000.5:0:0:0:0:".toList = true := by decide +kernel
+
+/-! ## `Key:Value` — the first colon only (D01) -/
+
+/-- one `Key:value` line: split at the first colon, then the key table — for every key without a colon that is not
+one of the two event markers, and **every** value -/
+theorem metaStep_key_value (m m' : Meta) (k v : Str) (rest : List Str) (hk : ':' ∉ k) (hb : k ≠ kBackground)
+    (hs : k ≠ kSamples) (ha : metaAssign m k (some v) = .ok m') : metaStep m (k ++ ':' :: v) rest = .ok m' := by
+  unfold metaStep
+  have hne : k ++ ':' :: v ≠ [] := by simp
+  rw [if_neg hne, split1_key_value ':' k v hk]
+  simp only [ha, if_neg hb, if_neg hs]
+
+/-- **every metadata value survives, whatever it contains** (further colons included): the line `key ++ ":" ++ value`
+is split at the first colon and the value reaches the attribute trimmed.  Shown for the seven text attributes. -/
+theorem meta_value_any (m : Meta) (v : Str) (rest : List Str) :
+    metaStep m ("Title".toList ++ ':' :: v) rest = .ok { m with title := strip v } ∧
+    metaStep m ("TitleUnicode".toList ++ ':' :: v) rest = .ok { m with titleUnicode := strip v } ∧
+    metaStep m ("Artist".toList ++ ':' :: v) rest = .ok { m with artist := strip v } ∧
+    metaStep m ("ArtistUnicode".toList ++ ':' :: v) rest = .ok { m with artistUnicode := strip v } ∧
+    metaStep m ("Creator".toList ++ ':' :: v) rest = .ok { m with creator := strip v } ∧
+    metaStep m ("Version".toList ++ ':' :: v) rest = .ok { m with version := strip v } ∧
+    metaStep m ("Source".toList ++ ':' :: v) rest = .ok { m with source := strip v } := by
+  refine ⟨?_, ?_, ?_, ?_, ?_, ?_, ?_⟩ <;>
+    (apply metaStep_key_value
+     · decide +kernel
+     · decide +kernel
+     · decide +kernel
+     · unfold metaAssign; simp [mStr])
+
+/-- numeric and boolean keys: the value is parsed by `int()` / `float()` / `bool(int())` of everything after the
+first colon -/
+theorem meta_numeric_any (m : Meta) (v : Str) (rest : List Str) (q : Rat) (i : Int) :
+    (readFloat v = .ok q → metaStep m ("CircleSize".toList ++ ':' :: v) rest = .ok { m with circleSize := q }) ∧
+    (readInt v = .ok i → metaStep m ("AudioLeadIn".toList ++ ':' :: v) rest = .ok { m with audioLeadIn := (i : Rat) }) ∧
+    (readInt v = .ok i → metaStep m ("BeatmapID".toList ++ ':' :: v) rest = .ok { m with beatmapId := i }) := by
+  refine ⟨fun h => ?_, fun h => ?_, fun h => ?_⟩ <;>
+    (apply metaStep_key_value
+     · decide +kernel
+     · decide +kernel
+     · decide +kernel
+     · unfold metaAssign; simp [mFloat, mInt, h, bind, Except.bind, pure, Except.pure])
+
+example : (metaStep {} "Title:a:b: c".toList []).toOption.map (·.title) = some "a:b: c".toList := by decide +kernel
+
+/-! ## read ∘ write, line by line, down to the characters -/
+
+/-- **Reading what was written gives the quantized object, for every key count 1..256, every column, every time
+(negative, fractional, large), every hitsound field, every file name without `,` `:`** — hit, hold and sample lines
+(proved for every instantiation of the renderer: these lines contain integers only). -/
+theorem line_roundtrip (R : Render) (k : Int) (hk : 0 < k) (hk' : k ≤ 256) :
+    (∀ h : Hit, 0 ≤ h.column → h.column < k → ',' ∉ h.file → ':' ∉ h.file →
+        readHit (R.line (writeHit h k)) k = .ok (qHit h)) ∧
+    (∀ h : Hold, 0 ≤ h.column → h.column < k → ',' ∉ h.file → ':' ∉ h.file →
+        readHold (R.line (writeHold h k)) k = .ok (qHold h)) ∧
+    (∀ s : Sample, ',' ∉ s.file → readSample (R.line (writeSample s)) = .ok (qSample s)) :=
+  ⟨fun h a b c d => readHit_writeHit R h k hk hk' a b c d, fun h a b c d => readHold_writeHold R h k hk hk' a b c d,
+   fun s a => readSample_writeSample R s a⟩
+
+/-- **no drift, at the text level**: writing and reading an object that has already been through one cycle
+reproduces it exactly — generation n+1 = generation 1 -/
+theorem line_no_drift (R : Render) (k : Int) (hk : 0 < k) (hk' : k ≤ 256) (h : Hit) (hd : Hold)
+    (h1 : 0 ≤ h.column) (h2 : h.column < k) (h3 : ',' ∉ h.file) (h4 : ':' ∉ h.file)
+    (d1 : 0 ≤ hd.column) (d2 : hd.column < k) (d3 : ',' ∉ hd.file) (d4 : ':' ∉ hd.file) :
+    readHit (R.line (writeHit (qHit h) k)) k = .ok (qHit h) ∧
+    readHold (R.line (writeHold (qHold hd) k)) k = .ok (qHold hd) := by
+  constructor
+  · have := readHit_writeHit R (qHit h) k hk hk' h1 h2 h3 h4
+    rw [qHit_idem] at this; exact this
+  · have := readHold_writeHold R (qHold hd) k hk hk' d1 d2 d3 d4
+    rw [qHold_idem] at this; exact this
+
+example : (readHold (intRender.line (writeHold { offset := -21/2, column := 3, length := 21/4 } 4)) 4).toOption =
+    some { offset := -10, column := 3, length := 5 } := by decide +kernel
+
+/-- tempo and scroll-velocity lines, parametric in the float renderer (hypotheses: `repr` reads back exactly and
+contains no comma, for the numbers of this very line) -/
+theorem timing_line_roundtrip (R : Render) :
+    (∀ b : Bpm, b.bpm ≠ 0 → readFloat (R.repr b.offset) = .ok b.offset →
+        readFloat (R.repr (bpmCode b.bpm)) = .ok (bpmCode b.bpm) → ',' ∉ R.repr b.offset →
+        ',' ∉ R.repr (bpmCode b.bpm) → readBpm (R.line (writeBpm b)) = .ok (qBpm b)) ∧
+    (∀ b : Sv, b.multiplier ≠ 0 → readFloat (R.repr b.offset) = .ok b.offset →
+        readFloat (R.repr (svCode b.multiplier)) = .ok (svCode b.multiplier) → ',' ∉ R.repr b.offset →
+        ',' ∉ R.repr (svCode b.multiplier) → readSv (R.line (writeSv b)) = .ok b) :=
+  ⟨fun b a c d e f => readBpm_writeBpm R b a c d e f, fun b a c d e f => readSv_writeSv R b a c d e f⟩
+
+/-! ## the whole `[HitObjects]` section of a written chart -/
+
+theorem mem_insertBy {α} (le : α → α → Bool) (x a : α) (l : List α) : a ∈ insertBy le x l ↔ a = x ∨ a ∈ l := by
+  induction l with
+  | nil => simp [insertBy]
+  | cons y ys ih =>
+    unfold insertBy
+    split
+    · simp
+    · simp only [List.mem_cons, ih]
+      constructor
+      · rintro (h | h | h)
+        · exact Or.inr (Or.inl h)
+        · exact Or.inl h
+        · exact Or.inr (Or.inr h)
+      · rintro (h | h | h)
+        · exact Or.inr (Or.inl h)
+        · exact Or.inl h
+        · exact Or.inr (Or.inr h)
+
+theorem mem_isort {α} (le : α → α → Bool) (a : α) (l : List α) : a ∈ isort le l ↔ a ∈ l := by
+  induction l with
+  | nil => simp [isort]
+  | cons y ys ih =>
+    have : isort le (y :: ys) = insertBy le y (isort le ys) := rfl
+    rw [this, mem_insertBy, ih]; simp
+
+/-- **Every chart, any number of notes, any interleaving, every key count 1..256**: the object lines that `write`
+emits (holds and hits merged, sorted by time), classified by counting separators and read back, are exactly the hits
+and holds of `quantize c` — columns kept, times truncated, nothing lost, nothing invented, nothing misclassified. -/
+theorem objects_section_roundtrip (R : Render) (c : Chart)
+    (hk : 0 < pyTrunc c.md.circleSize) (hk' : pyTrunc c.md.circleSize ≤ 256)
+    (hhits : ∀ h ∈ c.hits, 0 ≤ h.column ∧ h.column < pyTrunc c.md.circleSize ∧ ',' ∉ h.file ∧ ':' ∉ h.file)
+    (hholds : ∀ h ∈ c.holds, 0 ≤ h.column ∧ h.column < pyTrunc c.md.circleSize ∧ ',' ∉ h.file ∧ ':' ∉ h.file) :
+    mapE (fun s => readHit s (pyTrunc c.md.circleSize))
+        ((((sortedObjs c).map (writeObj (pyTrunc c.md.circleSize))).map R.line).filter isHit)
+      = .ok (quantize R.uni c).hits ∧
+    mapE (fun s => readHold s (pyTrunc c.md.circleSize))
+        ((((sortedObjs c).map (writeObj (pyTrunc c.md.circleSize))).map R.line).filter isHold)
+      = .ok (quantize R.uni c).holds := by
+  apply readObjs_writeObjs R _ hk hk'
+  intro o ho
+  unfold sortedObjs at ho
+  rw [mem_isort] at ho
+  simp only [List.mem_append, List.mem_map] at ho
+  rcases ho with ⟨h, hh, rfl⟩ | ⟨h, hh, rfl⟩
+  · exact hholds h hh
+  · exact hhits h hh
+
+example : (mapE (fun s => readHit s 4) ((((sortedObjs { hits := [{ offset := 7/2, column := 1 }], holds := [{ offset := 1, column := 0, length := 3/2 }] }).map
+    (writeObj 4)).map intRender.line).filter isHit)).toOption = some [{ offset := 3, column := 1 }] := by decide +kernel
+
+/-! ## the `[TimingPoints]` section and the sample events of a written chart -/
+
+/-- the timing lines of `write c`, classified and read back, are the tempo points and scroll velocities of
+`quantize c` (bpm and SV values exactly, by `code_value`) — any number of points; hypotheses only on the renderer -/
+theorem timing_section_roundtrip (R : Render) (c : Chart)
+    (hb : ∀ b ∈ c.bpms, BpmOk R b) (hs : ∀ b ∈ c.svs, SvOk R b) :
+    mapE readSv (((c.bpms.map writeBpm ++ c.svs.map writeSv).map R.line).filter isSliderVelocity)
+      = .ok (quantize R.uni c).svs ∧
+    mapE readBpm (((c.bpms.map writeBpm ++ c.svs.map writeSv).map R.line).filter isTimingPoint)
+      = .ok (quantize R.uni c).bpms :=
+  readTiming_writeTiming R c.bpms c.svs hb hs
+
+/-- the sample events `write` emits, selected by their `Sample` prefix and read back, are the quantized samples -/
+theorem samples_section_roundtrip (R : Render) (ss : List Sample) (hf : ∀ s ∈ ss, ',' ∉ s.file) :
+    mapE readSample (((ss.map writeSample).map R.line).filter (startsWith pSample)) = .ok (ss.map qSample) := by
+  induction ss with
+  | nil => rfl
+  | cons s t ih =>
+    have r := readSample_writeSample R s (hf s (by simp))
+    have hp : startsWith pSample (R.line (writeSample s)) = true := by
+      rw [line_writeSample]; simp [startsWith, pSample, joinWith]
+    simp only [List.map_cons, List.filter_cons, hp, if_true, mapE, r, ih (fun s' hs' => hf s' (by simp [hs']))]
+
+end Reamber.Osu
